@@ -219,6 +219,91 @@ def save (off : Nat) (path buildId : List Char) (t : List Sym) : List Char :=
   if t.isEmpty then []
   else header t.length path buildId ++ (t.map (fun s => saveLine off s ++ ['\n'])).flatten
 
+/-! ### which file of the symbol directory belongs to a module
+     (`check_symbol_file`, `make_new_symbol_filename`, the naming part of
+     `save_module_symbol_file`, and `load_module_symbol` incl. SYMTAB_FL_SYMS_DIR) -/
+
+/-- a symbol directory: file name ↦ content -/
+abbrev SymDir := List (List Char × List Char)
+
+def SymDir.get (d : SymDir) (name : List Char) : Option (List Char) := d.lookup name
+
+/-- `uftrace_basename()`: the part after the last '/' -/
+def basename (path : List Char) : List Char :=
+  (path.reverse.takeWhile (· != '/')).reverse
+
+/-- `strncmp(line, prefix, strlen(prefix)) == 0 ? line + strlen(prefix) : NULL` -/
+def stripPrefix (pre line : List Char) : Option (List Char) :=
+  if line.take pre.length = pre then some (line.drop pre.length) else none
+
+/-- the header of a symbol file as `check_symbol_file` reads it: number of matching
+    header entries, path name, build-id (at most 40 characters).  Only the leading
+    `#` lines are looked at. -/
+structure SymHdr where
+  count : Nat := 0
+  path : List Char := []
+  bid : List Char := []
+deriving Repr, DecidableEq
+
+def hdrStep (h : SymHdr) (line : List Char) : SymHdr :=
+  let h1 := match stripPrefix "# path name: ".toList line with
+    | some p => { h with count := h.count + 1, path := p }
+    | none => h
+  match stripPrefix "# build-id: ".toList line with
+  | some b => { h1 with count := h1.count + 1, bid := b.take 40 }
+  | none => h1
+
+def checkSymbolFile (text : List Char) : SymHdr :=
+  ((splitLines text).takeWhile (fun l => l.head? == some '#')).foldl hdrStep {}
+
+/-- `csum += (int)*p++` in a `uint16_t` (ASCII path names) -/
+def pathCsum (path : List Char) : Nat := (path.foldl (fun a c => a + c.toNat) 0) % 65536
+
+/-- `make_new_symbol_filename(symfile, pathname, build_id)` on the file name:
+    `<base>-<first 4 of build-id>.sym`, or `<base>-<%04x checksum of the path>.sym` -/
+def newSymName (symfile path bid : List Char) : List Char :=
+  let stem := symfile.take (symfile.length - 4)
+  if bid.isEmpty then stem ++ '-' :: hexFixed 4 (pathCsum path) ++ ".sym".toList
+  else stem ++ '-' :: bid.take 4 ++ ".sym".toList
+
+/-- `save_module_symbol_file(stab, pathname, build_id, "<dir>/<basename>.sym", 0)`:
+    nothing for an empty table; a fresh file under the primary name; if that name is
+    taken by another module (different path or build-id in its header) the alternative
+    name, unless that is taken as well. -/
+def saveInto (d : SymDir) (path bid : List Char) (t : List Sym) : SymDir :=
+  if t.isEmpty then d else
+  let name := basename path ++ ".sym".toList
+  match d.get name with
+  | none => d ++ [(name, save 0 path bid t)]
+  | some old =>
+    let h := checkSymbolFile old
+    if h.count = 0 then d
+    else if h.path = path ∧ h.bid = bid then d
+    else
+      let alt := newSymName name path bid
+      match d.get alt with
+      | none => d ++ [(alt, save 0 path bid t)]
+      | some _ => d
+
+/-- the file name `load_module_symbol` settles on for module `(mname, mbid)`;
+    `withSyms` = SYMTAB_FL_SYMS_DIR (symbol directory differs from the data directory) -/
+def selectSymName (d : SymDir) (withSyms : Bool) (mname mbid : List Char) : List Char :=
+  let name := basename mname ++ ".sym".toList
+  match d.get name with
+  | none => name
+  | some text =>
+    let h := checkSymbolFile text
+    if h.count > 0 ∧ ((h.path ≠ mname ∧ withSyms = false) ∨
+                      (h.bid ≠ [] ∧ mbid ≠ [] ∧ h.bid ≠ mbid)) then
+      newSymName name mname mbid
+    else name
+
+/-- the table of a module loaded with SYMTAB_FL_USE_SYMFILE (no ELF file to fall back to) -/
+def moduleTable (d : SymDir) (withSyms : Bool) (mname mbid : List Char) : List Sym :=
+  match d.get (selectSymName d withSyms mname mbid) with
+  | some text => load 0 text
+  | none => []
+
 /-! ### predicates on tables used by the theorems and the monitor -/
 
 def AddrSorted (l : List Sym) : Prop := l.Pairwise (fun a b => a.addr ≤ b.addr)
